@@ -128,12 +128,21 @@ Definition enc_ecl (lay : layout) (r : N * efile) : val :=
   | Flat => VL [vN (fst r); vN (f_dir (snd r)); vN (f_mtime (snd r))]
   | Md5 => VL [vN (fst r); vN (f_md5 (snd r))]
   end.
+(* the ORDER of the eclasses inside a stored entry is the order of whichever package first asked
+   the long-lived eclass cache for that set of names (get_eclass_data memoises per name set); it
+   plays no role in any decision, so entries are compared with their eclasses sorted by name *)
+Fixpoint ins_ecl (r : N * efile) (l : list (N * efile)) : list (N * efile) :=
+  match l with
+  | [] => [r]
+  | x :: t => if fst r <=? fst x then r :: l else x :: ins_ecl r t
+  end.
+Definition sort_ecl (l : list (N * efile)) : list (N * efile) := fold_right ins_ecl [] l.
 Definition enc_slot (lay : layout) (s : slot) : val :=
   match s with
   | Absent => VNone
   | Corrupt => VErr [67]%N
   | Entry e => VL [vN (c_chf e);
-                   match c_ecl e with Some l => VL (map (enc_ecl lay) l) | None => VNone end;
+                   match c_ecl e with Some l => VL (map (enc_ecl lay) (sort_ecl l)) | None => VNone end;
                    VB (c_inherit e); vN (c_payload e)]
   end.
 Definition enc_outcome (o : outcome) : val :=
